@@ -368,6 +368,12 @@ func (in *Interp) floatBinop(op token.Token, f32 bool, x, y value) value {
 		}
 		return r
 	}
+	// integer-valued floats with an empty chain (float64(i), |i| small by the
+	// harness's stated assumption): + - and comparisons are exact integer
+	// operations; a concrete operand must be integral or an infinity
+	if r, ok := in.intFloatArith(op, x, y); ok {
+		return r
+	}
 	// integer-valued floats: multiplication by a concrete constant only
 	if xi, ok := x.(intFloat); ok {
 		if op == token.MUL && yc && !f32 {
@@ -495,6 +501,12 @@ func (in *Interp) eqTerm(t types.Type, x, y value) *Term {
 	case intFloat:
 		if y, ok := y.(intFloat); ok && x.chain == y.chain {
 			return mkEq(x.t, y.t)
+		}
+		if yf, ok := y.(float64); ok && x.chain == "" {
+			if yt, ok := intFloatOfConcrete(yf); ok {
+				return mkEq(x.t, yt)
+			}
+			return tFalse // an infinity or a non-integral value
 		}
 		panic(unsupported{"comparison of integer-valued symbolic floats with different histories"})
 	case complex128:
